@@ -472,7 +472,19 @@ def build():
                   ("count unchanged", "self._ticks == old(self._ticks)"),
                   ("stopped event once", "posted_stopped() == 1")],
          modifies=["self.running", "self.timer", "self.delay.pending"], raises={},
-         emits=lambda I, env, res: None)
+         emits=lambda I, env, res: emit(I, "post", kind="post", event=VStr(z3.Concat(
+             z3.StringVal("timer_"), I.force(I.read_field(env["self"].ref, "name")).t, z3.StringVal("_stopped"))),
+             kwargs={}, callback=NONE))
+    C.ext("Timer._remove_control_events", model=lambda I, env, a, k: (emit(I, "remove_control_events"), NONE)[1],
+          trusted_reason="removes the handlers registered for the timer's control events (handler removal is C01)")
+    C.helpers["n_control_removed"] = lambda I: VInt(len(events_named(I, "remove_control_events")))
+    C.trace_helpers |= {"n_control_removed"}
+    C.fn("Timer.device_removed_from_mode", params=dict(mode=Opaque("Mode")),
+         ensures=[("R1: a removed timer can no longer act for the player it was loaded with: it is not running, has no "
+                   "periodic tick, no pending un-pause and no control-event handler",
+                   "self.running == False and self.timer is None and not pause_pending() and n_control_removed() == 1"),
+                  ("the count is kept", "self._ticks == old(self._ticks)")],
+         modifies=["self.running", "self.timer", "self.delay.pending"], raises={})
     C.fn("Timer.pause", params=dict(timer_value=Const(0)),
          ensures=[("paused: not running and no periodic tick left", "self.running == False and self.timer is None"),
                   ("count unchanged", "self._ticks == old(self._ticks)")],
